@@ -50,6 +50,7 @@ type checker struct {
 	n    *Node
 	m    *Model
 	soft bool // collect the first mismatch instead of failing the run (see try)
+	ctx  string
 }
 
 type mismatch struct{ class, key, detail string }
@@ -57,7 +58,7 @@ type mismatch struct{ class, key, detail string }
 type softFail struct{ m mismatch }
 
 func (k *checker) fail(class, key, format string, a ...any) {
-	d := fmt.Sprintf("["+k.n.Name+backendName(k.n)+"] "+format, a...)
+	d := fmt.Sprintf("["+k.n.Name+backendName(k.n)+"] "+k.ctx+format, a...)
 	if k.soft {
 		panic(softFail{mismatch{class, key, d}})
 	}
@@ -141,6 +142,8 @@ func (k *checker) CheckHead() {
 func (k *checker) CheckBlock(b *chaingen.Block) {
 	bc := k.n.BC
 	num := b.B.Number
+	k.ctx = fmt.Sprintf("block %d: ", num)
+	defer func() { k.ctx = "" }()
 	cl := "accessor"
 	blk, err := bc.BlockByNumber(num)
 	k.eq(cl, "BlockByNumber", b.B, blk, err)
